@@ -30,7 +30,7 @@ func init() {
 }
 
 func runC10(c *core.Ctx) {
-	total := c.Scale(4000, 80000)
+	total := c.Scale(16000, 160000)
 	stuck := 0
 	for idx := 0; idx < total; idx++ {
 		if !c.Mine(idx) {
@@ -51,7 +51,16 @@ func runC10(c *core.Ctx) {
 		cfg.PerWriter = 4 + rng.Intn(12)
 		cfg.Procs = []int{1, 2, 4, 8}[rng.Intn(4)]
 		cfg.Entries = []int{wl.EWrite1, wl.EWritev, wl.ECtxWrite1, wl.ECtxWritev, wl.EWriter, wl.EReadFrom, wl.EReadFromEOF}
-		switch rng.Intn(3) {
+		switch rng.Intn(4) {
+		case 3:
+			// one writer whose payloads travel through ReadFrom in short pieces (several low-level writes per payload, in order)
+			cfg.Writers = 1
+			if cfg.Mode == mon.NonBlock {
+				cfg.Mode = mon.Blocking // a refused piece would legitimately cut the payload short
+			}
+			cfg.Entries = []int{wl.EReadFromFrag, wl.EReadFromFrag, wl.EWrite1}
+			cfg.Sizes = []int{16, 100, 300, 700, 1000, 1024, 2000, 3000}
+			cfg.PerWriter = 6 + rng.Intn(10)
 		case 0:
 			cfg.Sizes = []int{0, 16, 17, 100, 500, 1023, 1024} // ReadFrom-safe: single chunk
 		case 1:
